@@ -100,6 +100,25 @@ def gen(tier, rng):
                 yield build(rng, n, n - 1, cls, v, status, eof=False)
                 if n > 1:
                     yield build(rng, n, 0, cls, v, status, eof=False)
+    # unsupported expectation, the client withholds the body until it has the verdict (that is what Expect is for)
+    for v in BAD_EXPECT[:4]:
+        for cl in (5, 1024, 1025, 70000):
+            head = b"POST /badw HTTP/1.1\r\nExpect: " + v + b"\r\nContent-Length: %d\r\n\r\n" % cl
+            for pre in (0, 2):
+                stream = b""
+                acts, wu, ws = [], [], []
+                for i in range(pre):
+                    r = good("w%d" % i, rng)
+                    stream += r.render()
+                    acts.append(action_str([], respond_str(200, b"ok", True)))
+                    wu.append(hx(r.target))
+                    ws.append("200")
+                stream += head
+                ws.append("417")
+                if not acts:
+                    acts = [action_str([], respond_str(200, b"never", True))]
+                yield (cv_line(stream, acts, eof=False, extra="wu=%s ws=%s we=closed cls=expect-withheld limit=2500" % (j(wu), j(ws))),
+                       {"class": "expect-withheld", "position": pre, "n": pre + 1, "client_half_closes": False})
     # a TCP sample
     for cls, variants, status in CLASSES:
         yield build(rng, 2, 1, cls, variants[0], status, transport="t")
